@@ -41,7 +41,7 @@ PATH_NAMES = ["file_a", "file_b", "dir_a", "dir_empty", "link_a", "link_dangling
 PATH = st.sampled_from(PATH_NAMES)
 FS = st.fixed_dictionaries({
     "file_a": st.sampled_from(["", "hello", "hello\n", "é"]),
-    "file_a_mode": st.sampled_from(["0644", "0600", "0755"]),
+    "file_a_mode": st.sampled_from(["0644", "0600", "0755", "1644", "1755"]),
     "file_b": st.sampled_from(["hello", "x"]),
     "dir_a": st.lists(st.sampled_from(["inner", "x", "y"]), unique=True, max_size=3),
     "tar_a": st.lists(st.sampled_from(["m1", "m2", "d/m3"]), unique=True, max_size=3),
@@ -62,6 +62,7 @@ EXC_CLASSES = {"ValueError": ValueError, "KeyError": KeyError, "RuntimeError": R
                "ZeroDivisionError": ZeroDivisionError, "CustomError": CustomError, "Exception": Exception,
                "KeyboardInterrupt": KeyboardInterrupt, "SystemExit": SystemExit, "CustomBase": CustomBase,
                "BaseException": BaseException, "ArithmeticError": ArithmeticError}
+
 WARN_CLASSES = {"DeprecationWarning": DeprecationWarning, "UserWarning": UserWarning}
 
 
@@ -142,8 +143,21 @@ def live_value(domain, v, env):
         return fn
     if domain == "path":
         return env.path(v)
-    if domain in ("list", "dict"):
-        return type(v)(v)
+    if domain == "list":
+        return list(v)
+    if domain == "dict":
+        flavour = getattr(env, "dict_flavour", "dict") if env is not None else "dict"
+        if flavour == "defaultdict":
+            import collections
+            return collections.defaultdict(int, v)
+        if flavour == "Counter":
+            import collections
+            c = collections.Counter()
+            c.update(v)
+            for k in v:                 # Counter.update drops nothing; keep zero counts as given
+                c[k] = v[k]
+            return c
+        return dict(v)
     return v
 
 
@@ -193,14 +207,14 @@ def leaf(domain):
                 st.builds(lambda es: M("MatchesException", "exc_info", form="tuple", excs=es), st.lists(st.sampled_from(EXC_NAMES), min_size=1, max_size=2))]
     elif domain == "callable":
         gen += [st.builds(lambda: M("Raises", "callable", inner=None)),
-                st.builds(lambda e: M("raises", "callable", form="type", exc=e), st.sampled_from(EXC_NAMES + ["Exception", "KeyboardInterrupt", "BaseException"])),
+                st.builds(lambda e: M("raises", "callable", form="type", exc=e), st.sampled_from(EXC_NAMES + ["Exception", "KeyboardInterrupt", "BaseException", "CustomBase", "CustomBase"])),
                 st.builds(lambda e: M("raises", "callable", form="instance", inst=e), EXC),
                 st.builds(lambda: M("Warnings", "callable", inner=None))]
     elif domain == "path":
         gen += [st.builds(lambda n: M(n, "path"), st.sampled_from(["PathExists", "DirExists", "FileExists"])),
                 st.builds(lambda f: M("DirContains", "path", filenames=f), st.lists(st.sampled_from(["inner", "x", "y"]), unique=True, max_size=3)),
                 st.builds(lambda c: M("FileContains", "path", contents=c), st.sampled_from(["", "hello", "hello\n", "é", "x"])),
-                st.builds(lambda p: M("HasPermissions", "path", perm=p), st.sampled_from(["0644", "0600", "0755", "0777"])),
+                st.builds(lambda p: M("HasPermissions", "path", perm=p), st.sampled_from(["0644", "0600", "0755", "0777", "1644", "1755"])),
                 st.builds(lambda p: M("SamePath", "path", other=p), st.sampled_from(PATH_NAMES + ["dir_a/../file_a", "./file_b"])),
                 st.builds(lambda p: M("TarballContains", "path", paths=p), st.lists(st.sampled_from(["m1", "m2", "d/m3"]), unique=True, max_size=3))]
     return st.one_of(*gen)
